@@ -1,6 +1,8 @@
 package filesystem
 
 import (
+	"bytes"
+	"archive/zip"
 	"context"
 	"os"
 	"regexp"
@@ -139,7 +141,7 @@ func VerifC08_Listings() {
 	nodes := vGenTree(fs, root)
 	pats := vPickPatterns()
 	ctx := context.Background()
-	op := verif.Choice("op", 5)
+	op := verif.Choice("op", 6)
 	var reported []string
 	var err error
 	maxDepth, dirsOnly := 2, false
@@ -167,6 +169,22 @@ func VerifC08_Listings() {
 			reported = append(reported, root+"/"+n)
 		}
 		maxDepth, dirsOnly = 1, true
+	case 5:
+		// what ends up in an archive of the tree (read back with the real zip reader)
+		err = fs.ZipWithContextAndLimitsAndExclusionPatterns(ctx, root, "/out.zip", NoLimits(), pats...)
+		if err == nil {
+			data, rerr := fs.ReadFile("/out.zip")
+			verif.Assert("archive_readable", rerr == nil)
+			zr, zerr := zip.NewReader(bytes.NewReader(data), int64(len(data)))
+			verif.Assert("archive_readable", zerr == nil)
+			for _, f := range zr.File {
+				name := f.Name
+				if len(name) > 0 && name[len(name)-1] == '/' {
+					name = name[:len(name)-1]
+				}
+				reported = append(reported, root+"/"+name)
+			}
+		}
 	}
 	verif.Assert("listing_succeeds", err == nil)
 	verif.Observe("reported", len(reported))
